@@ -20,7 +20,7 @@ use std::collections::{BTreeMap, BTreeSet};
 use std::sync::atomic::{AtomicBool, Ordering};
 use std::sync::{Arc, Mutex};
 use vmon::store::{ActorStore, Fault, FaultPlan, World};
-use vmon::table::{key_rows, scan_rows, Actor, Row, ScanOpts};
+use vmon::table::{scan_rows, Actor, Row, ScanOpts};
 
 // -------------------------------------------------------------------------------------------
 // errors without a snafu dependency
@@ -644,7 +644,9 @@ pub fn base_of(uri: &str) -> String {
 pub struct VersionObs {
     /// `name:type:nullable` per top-level field
     pub schema: Vec<String>,
-    pub rows: BTreeMap<i64, Row>,
+    /// rows by primary key; normally one row per id (a multiset so that a duplicated key, which
+    /// is not this engine's business, does not make the table "unreadable")
+    pub rows: BTreeMap<i64, Vec<Row>>,
     pub config: BTreeMap<String, String>,
     /// `name|field ids|fragment bitmap` per index segment, sorted
     pub indices: Vec<String>,
@@ -653,11 +655,19 @@ pub struct VersionObs {
 }
 
 impl VersionObs {
+    pub fn n_rows(&self) -> usize {
+        self.rows.values().map(|v| v.len()).sum()
+    }
+    pub fn duplicate_ids(&self) -> usize {
+        self.rows.values().filter(|v| v.len() > 1).count()
+    }
     pub fn digest(&self) -> u64 {
         let mut s = String::new();
         s.push_str(&self.schema.join(","));
-        for (k, r) in &self.rows {
-            s.push_str(&format!("\n{k}:{}", vmon::table::render_row(r)));
+        for (k, rs) in &self.rows {
+            for r in rs {
+                s.push_str(&format!("\n{k}:{}", vmon::table::render_row(r)));
+            }
         }
         s.push_str(&format!("\n{:?}\n{:?}", self.config, self.indices));
         vmon::prng::fnv(s.as_bytes())
@@ -708,7 +718,7 @@ impl Obs {
             } => serde_json::json!({
                 "versions": versions, "latest_id": latest_id, "opened": opened, "raw_final": raw_final,
                 "per_version": per_version.iter().map(|(v, o)| serde_json::json!({
-                    "v": v, "rows": o.rows.len(), "schema": o.schema, "config": o.config,
+                    "v": v, "rows": o.n_rows(), "duplicate_ids": o.duplicate_ids(), "schema": o.schema, "config": o.config,
                     "indices": o.indices, "fragments": o.fragments, "deleted_rows": o.deleted_rows,
                     "digest": format!("{:016x}", o.digest()),
                 })).collect::<Vec<_>>(),
@@ -776,8 +786,8 @@ impl Obs {
                             .collect();
                         return format!(
                             "v{v} rows differ: {} vs {} rows; only-observed ids {only_a:?}, only-expected ids {only_b:?}, changed ids {changed:?}",
-                            a.rows.len(),
-                            b.rows.len()
+                            a.n_rows(),
+                            b.n_rows()
                         );
                     }
                     if a.fragments != b.fragments || a.deleted_rows != b.deleted_rows {
@@ -846,11 +856,23 @@ pub async fn version_obs(ds: &Dataset) -> Result<VersionObs, String> {
     let (names, rows) = scan_rows(ds, &ScanOpts::default())
         .await
         .map_err(|e| format!("scan failed: {e}"))?;
-    let rows = if rows.is_empty() {
-        BTreeMap::new()
-    } else {
-        key_rows(&names, rows).map_err(|id| format!("duplicate id {id} in scan"))?
-    };
+    let mut keyed: BTreeMap<i64, Vec<Row>> = BTreeMap::new();
+    if !rows.is_empty() {
+        let k = names
+            .iter()
+            .position(|n| n == "id")
+            .ok_or_else(|| "scan output has no id column".to_string())?;
+        for r in rows {
+            let id = r[k].as_i64().ok_or_else(|| "null id in scan".to_string())?;
+            keyed.entry(id).or_default().push(r);
+        }
+        for v in keyed.values_mut() {
+            if v.len() > 1 {
+                v.sort_by_key(|r| vmon::table::render_row(r));
+            }
+        }
+    }
+    let rows = keyed;
     let config: BTreeMap<String, String> =
         ds.config().iter().map(|(k, v)| (k.clone(), v.clone())).collect();
     let idx = ds.load_indices().await.map_err(|e| format!("load_indices: {e}"))?;
@@ -1003,6 +1025,55 @@ pub async fn observe(p: &Proc, world: &World, uri: &str) -> Result<(Obs, Option<
             other_version_files: other,
         }),
     ))
+}
+
+/// Outcome of a panic/timeout-guarded observation.
+pub enum Seen {
+    Ok(Obs, Option<ObsExtra>),
+    /// the table exists but an API call returned Err
+    Unreadable(String),
+    /// Lance panicked while a fresh reader looked at the table; `sig` is a narrow class
+    Panic { msg: String, sig: String },
+    Timeout,
+}
+
+pub const SIG_DETACHED_PANIC: &str = "reader-panics-resolving-latest-when-d-prefixed-file-is-listed-v2";
+
+pub async fn observe_guarded(p: &Proc, world: &World, uri: &str) -> Seen {
+    match guarded(observe(p, world, uri), 60).await {
+        Ok(Ok((o, x))) => Seen::Ok(o, x),
+        Ok(Err(e)) => Seen::Unreadable(e),
+        Err(GuardFail::Timeout) => Seen::Timeout,
+        Err(GuardFail::Panic(msg)) => {
+            // classify: V2-named manifests + a detached manifest in the listing + unwrap on None
+            let base = base_of(uri);
+            let paths = world.list_paths().await;
+            let mut detached = false;
+            let mut v2 = false;
+            let vdir = format!("{base}/_versions/d");
+            for path in &paths {
+                // any object `_versions/d*` (a detached manifest or the staging file of one)
+                if path.starts_with(&vdir) {
+                    detached = true;
+                }
+                match vers_file(&base, path) {
+                    Some(VersFile::Final(_)) => {
+                        let name = path.rsplit('/').next().unwrap_or("");
+                        if name.len() == 20 + ".manifest".len() {
+                            v2 = true;
+                        }
+                    }
+                    _ => {}
+                }
+            }
+            let sig = if detached && v2 && msg.contains("Option::unwrap()") {
+                SIG_DETACHED_PANIC.to_string()
+            } else {
+                "reader-panicked-other".to_string()
+            };
+            Seen::Panic { msg, sig }
+        }
+    }
 }
 
 /// Check that every object referenced by `refs` exists in `paths` (sorted listing).
